@@ -119,7 +119,10 @@ def goast(mode, *args):
     rc, out = sh([build_goast(), mode, REPO] + list(args), timeout=120)
     if rc != 0:
         raise TieBroken("goast %s %s failed: %s" % (mode, " ".join(args), out.strip()))
-    return json.loads(out)
+    v = json.loads(out)
+    if v is None:                      # Go encodes an empty slice as null
+        v = {} if mode == "imports" else []
+    return v
 
 
 class InfraError(Exception):
